@@ -274,7 +274,9 @@ pub fn run(seed: u64, count: usize, outdir: &str) -> std::io::Result<i32> {
                     match catch_unwind(AssertUnwindSafe(|| $f.simplify(&tr, Default::default(), &mut ws))) {
                         Ok(Ok(f1)) => match grad_eval(&f1, &dag.vs, &pts[..1], &seeds[..1]) {
                             Ok(r1) => if !rows.is_empty() && !r1.is_empty() {
-                                let (a, b): (Vec<String>, Vec<String>) = (rows[0].iter().map(gbits).collect(), r1[0].iter().map(gbits).collect());
+                                // (an output whose ORIGINAL value is NaN at the point is left out: it has no derivative, and whether simplification
+                                //  may turn a NaN into a number is C04's question, see its known finding nan-hidden-by-interval)
+                                let (a, b): (Vec<String>, Vec<String>) = rows[0].iter().zip(&r1[0]).map(|(g0, g1)| if g0.v.is_nan() { ("nan".to_string(), "nan".to_string()) } else { (gbits(g0), gbits(g1)) }).unzip();
                                 if a != b { let k = a.iter().zip(&b).position(|(x, y)| x != y).unwrap_or(0);
                                     bad.push(format!("kind=simplified-gradient-differs backend={} output {k} ({}): original {} simplified {}", $name, op_name(&dag, roots[k.min(roots.len() - 1)]), a.get(k).cloned().unwrap_or_default(), b.get(k).cloned().unwrap_or_default())); } },
                             Err(_) => bad.push(format!("kind=panic backend={} gradient of the simplified function", $name)) },
